@@ -51,6 +51,9 @@ Proof.
   - intros H. exists c. split; [exact H | apply N.eqb_refl].
 Qed.
 
+Definition is_alnum (c : char) : bool :=
+  (N.leb 48 c && N.leb c 57) || (N.leb 65 c && N.leb c 90) || (N.leb 97 c && N.leb c 122).
+
 Definition needs_escaping (c : char) : bool := mem c needs_escaping_chars.
 Definition regex_special (c : char) : bool := mem c regex_special_chars.
 
